@@ -107,6 +107,17 @@ CLAIMED = {
          "environment), and that each loader names existing classes and the advertised scheme path.",
          "Trusted: CPython's ast parser, sa/terms.py, sa/symlen.py, sa/contracts.py, sa/props/c03.py. Assumes pickle "
          "round-trips built-in containers of bytes. Equality of concrete deserialized objects is not computed."),
+ "C08": ("set comparison of consumed vs demanded configuration keys, semantic guard->raise location with dominance, symbolic length contracts",
+         "Decides the three structural mechanisms that make a bad configuration loud: (1) every key a _parse_config reads is in "
+         "the literal list given to check_param_exist (which dominates the reads) or flows only into a name registry that "
+         "raises on unknown names; (2) the length guards of HmacPRF, AESxCBC, BitwiseFPEPRP and LubyRackoffPRP exist, compare "
+         "len(parameter) with the declared length, raise ValueError and dominate the work, every scheme constructs its "
+         "primitives with the length keywords of the reviewed tree (so the guards are armed), and each of the ~100 primitive "
+         "calls is symbolically identical to or armed by its declaration; (3) six scheme-level cross-checks and the four name "
+         "registries still refuse. The quantification over the whole configuration grid (correct results for every accepted "
+         "configuration) is NOT decided - that needs execution.",
+         "Trusted: CPython's ast parser, sa/props/c08.py (the frozen tables GUARDS and CTOR_KW, confirmed by reading), "
+         "sa/contracts.py, sa/symlen.py. Numeric sanity of values (negative sizes, non-integers) is value-level."),
 }
 NA_REASON = "check under construction in this session (see DESIGN.md section 3); not yet registered"
 NA = {}
